@@ -479,6 +479,21 @@ func (txmp *TxMempool) addNewTransaction(wtx *WrappedTx, checkTxRes *abci.Respon
 		return
 	}
 
+	// The cache may have forgotten a transaction that is still in the mempool
+	// (cache smaller than the mempool, or disabled): never insert a second copy,
+	// only record the peers that sent it.
+	if elt, ok := txmp.txByKey[wtx.tx.Key()]; ok {
+		w := elt.Value.(*WrappedTx)
+		for id := range wtx.peers {
+			w.SetPeer(id)
+		}
+		txmp.logger.Debug(
+			"transaction already in the mempool, not adding it again",
+			"tx", fmt.Sprintf("%X", wtx.tx.Hash()),
+		)
+		return
+	}
+
 	priority := checkTxRes.Priority
 	sender := checkTxRes.Sender
 
